@@ -504,7 +504,8 @@ def make_ref(name, P, rec, timeout=1200):
     a, b, c = _raw_fixed(r_lo, W + 8), _raw_fixed(r_hi, W + 8), _raw_fixed(t_hi, W + 8)
     tol = (b >> (P + 32)) + 1
     if abs(a - b) > tol or abs(c - b) > tol:
-        rec.note('consensus-reference-conflict', {'c': name, 'P': P, 'R1lo-R1hi': abs(a - b) / tol, 'tree-R1hi': abs(c - b) / tol})
+        rec.note('consensus-reference-conflict', {'c': name, 'P': P, 'R1lo-R1hi (in tolerances)': min(abs(a - b) // tol, 10**9),
+                                                  'tree-R1hi (in tolerances)': min(abs(c - b) // tol, 10**9)})
         return None
     rad = tol + 2
     return Ref(name, W, (b - rad) >> 8, ((b + rad) >> 8) + 1, 'consensus')
